@@ -1,7 +1,7 @@
 package props
 
 // Bounded-exhaustive FAT histories for C01 / C08: every sequence of at most L operations over a
-// fixed 16-symbol alphabet (two files in the root, one directory, one file inside it), on one small
+// fixed 18-symbol alphabet (two files in the root, one directory, one file inside it), on one small
 // volume per FAT type. Sequences in which an operation names something that does not exist at that
 // point are pruned (they would repeat a shorter sequence). The cases are ordinary histCase values,
 // judged by the same executors and replayed from the same JSON as the generated histories.
@@ -51,6 +51,12 @@ var enumAlphabet = []enumSym{
 	{op: func(cb int) fsOp { return fsOp{K: "append", P: "B.TXT", D: mk.Content{Seed: 17, Len: 1}} }, need: eB},
 	{op: func(cb int) fsOp { return fsOp{K: "write", P: "B.TXT", Off: 1, D: mk.Content{Seed: 18, Len: cb}} }, need: eB},
 	{op: func(cb int) fsOp { return fsOp{K: "remove", P: "D/A.TXT"} }, need: eDA, clear: eDA},
+	{op: func(cb int) fsOp {
+		return fsOp{K: "squeeze", P: "A.TXT", Q: "B.TXT", Chunk: 16 * cb, D: mk.Content{Seed: 19}}
+	}, need: eA | eB, clear: eA},
+	{op: func(cb int) fsOp {
+		return fsOp{K: "squeeze", P: "B.TXT", Q: "A.TXT", Chunk: 16 * cb, D: mk.Content{Seed: 20}}
+	}, need: eA | eB, clear: eB},
 }
 
 func (s enumSym) apply(st uint8) (uint8, bool) {
@@ -155,7 +161,7 @@ func runFATEnum(t *testing.T, id string) {
 		c, ok := <-ch
 		if !ok {
 			hx.AddExtra(id, "enumerated_histories", n)
-			hx.SetExtra(id, "enumeration", "every sequence of 1.."+strconv.Itoa(enumLen())+" operations over a 16-symbol alphabet (create/write-past-EOF/append/trunc/rename-over/remove on A.TXT and B.TXT, mkdir D, create/remove D/A.TXT, remove D, reopen), pruned of operations on missing names, on one fat12, one fat16 and one fat32 volume")
+			hx.SetExtra(id, "enumeration", "every sequence of 1.."+strconv.Itoa(enumLen())+" operations over an 18-symbol alphabet (create/write-past-EOF/append/trunc/rename-over/remove on A.TXT and B.TXT, mkdir D, create/remove D/A.TXT, remove D, reopen, fill-the-volume-then-remove-one-and-grow-the-other in both directions), pruned of operations on missing names, on one fat12, one fat16 and one fat32 volume")
 			return nil, false
 		}
 		n++
